@@ -232,6 +232,20 @@ func cmdCheck(args []string) {
 		}
 	}
 	seenNames := map[string]bool{}
+	// `panicfree` functions: the claim "never panics" is an obligation of its own, discharged when
+	// every run-time-failure obligation of the function is
+	panicFreeOK := map[string]bool{}
+	for _, fr := range frs {
+		if fr.Contract != nil && fr.Contract.PanicFree && fr.Err == "" {
+			panicFreeOK[fr.FullName] = true
+			seenNames[fr.FullName+"#panicfree"] = true
+		}
+	}
+	for _, or := range all {
+		if or.Obl.Kind == "safe" && or.Status != "PROVED" {
+			panicFreeOK[or.Func.FullName] = false
+		}
+	}
 	for _, or := range all {
 		name := or.Obl.Name
 		seenNames[name] = true
@@ -341,7 +355,11 @@ func cmdCheck(args []string) {
 					key := or.Func.FullName + "|" + m[1]
 					shapeOK = shapeNow[key] == shapeExp[key]
 				}
-				if (expected[name] || (or.Obl.Kind != "safe" && expectedNorm[normName(name)])) && shapeOK && !tainted {
+				claimedPanicFree := or.Obl.Kind == "safe" && or.Func.Contract != nil && or.Func.Contract.PanicFree && expected[or.Func.FullName+"#panicfree"]
+				if claimedPanicFree {
+					shapeOK = true
+				}
+				if (expected[name] || claimedPanicFree || (or.Obl.Kind != "safe" && expectedNorm[normName(name)])) && shapeOK && !tainted {
 					isViolation = true
 					suffix = " no-failing-input-found"
 				} else {
